@@ -148,6 +148,12 @@ func c17Run(c *Ctx) {
 		defer held6.Close()
 		failing = append(failing, fmt.Sprintf("[::1]:%d", held6.Addr().(*net.TCPAddr).Port))
 	}
+	// odd forms around valid literals, each with a free port: whatever Run decides, Ready() may only become true
+	// if the address AS PASSED can then be dialled and is served
+	for _, f := range []string{"[[::1]:%d", "[::1]]:%d", "[[::1]]:%d", "[[127.0.0.1]]:%d", "[[127.0.0.1]:%d", "[127.0.0.1]]:%d", "[127.0.0.1]:%d", "[localhost]:%d",
+		" 127.0.0.1:%d", "127.0.0.1 :%d", "127.0.0.1:%d ", "127.0.0.1:+%d", "tcp://127.0.0.1:%d", "127.0.0.1:%d/", "127.0.0.1::%d", "[::1%%lo]:%d", "0x7f.0.0.1:%d", "127.1:%d", "[]:%d", "*:%d"} {
+		failing = append(failing, fmt.Sprintf(f, freePort()))
+	}
 	reps := c.N(2, 10)
 	for rep := 0; rep < reps; rep++ {
 		for _, addr := range failing {
@@ -156,6 +162,9 @@ func c17Run(c *Ctx) {
 				c.Inconclusive(err.Error())
 				return
 			}
+			srv.Mux.Bind(func(w *gldap.ResponseWriter, req *gldap.Request) {
+				w.Write(req.NewBindResponse(gldap.WithResponseCode(0)))
+			})
 			srv.S.Router(srv.Mux)
 			var done atomic.Bool
 			var sawTrue atomic.Bool
@@ -175,10 +184,31 @@ func c17Run(c *Ctx) {
 			go func() { runRet <- srv.S.Run(addr) }()
 			var rerr error
 			returned := false
-			select {
-			case rerr = <-runRet:
-				returned = true
-			case <-time.After(5 * time.Second):
+			for dl := time.Now().Add(5 * time.Second); time.Now().Before(dl) && !returned && !sawTrue.Load(); {
+				select {
+				case rerr = <-runRet:
+					returned = true
+				case <-time.After(200 * time.Microsecond):
+				}
+			}
+			if !returned && sawTrue.Load() {
+				// Run decided it can listen: then the address as passed must be dialable and served
+				dialAddr := addr
+				if strings.HasPrefix(addr, ":") && !strings.HasPrefix(addr, "::") {
+					dialAddr = "127.0.0.1" + addr
+				}
+				if err := c17Bind(dialAddr); err != nil {
+					c.Violate("Ready() was true but a connection attempt failed or was not served", fmt.Sprintf("Run(%q) did not return an error and Ready() became true, but the address as passed cannot be dialled/served: %v", addr, err), map[string]any{"addr": addr})
+				} else {
+					c.Count("dials_after_ready_true", 1)
+				}
+				done.Store(true)
+				pwg.Wait()
+				srv.S.Stop()
+				c.Count("failing_addresses_checked", 1)
+				c.Count("startups", 1)
+				c.Distinct("schedules", "odd-but-accepted/"+addr+"/gmp"+procs)
+				continue
 			}
 			// keep polling for a while after Run returned
 			time.Sleep(3 * time.Millisecond)
